@@ -412,7 +412,7 @@ def gen_layout(rng, style=None, build=None, nbins=None, sex_share=None, with_y=N
 
 def gen_cohort(rng, nbins=None, noise=None, k=None, build='rand', antis='rand', mixed=True,
                sex_share=None, flat_sex_profile=None, with_low=None, style=None, hap=None, with_y=None,
-               flat_profile=False):
+               flat_profile=False, autosomal_targets=None):
     """a valid cohort case (all files have the same bins)"""
     if build == 'rand':
         build = rng.choice([None, None, None, 'grch37', 'GRCh38'])
@@ -432,6 +432,14 @@ def gen_cohort(rng, nbins=None, noise=None, k=None, build='rand', antis='rand', 
                 ln = rng.randint(300, 900)
                 ab.append((c, pos, pos + ln, 'Antitarget'))
                 pos += ln + rng.choice([0, 50])
+    if autosomal_targets is None:
+        autosomal_targets = (antis == 'same') and rng.random() < 0.2
+    if autosomal_targets and antis == 'same' and ab:
+        # an autosome-only panel: the sex chromosomes are seen by the antitarget files only, so a sample's
+        # sex can be inferred from its antitarget file alone
+        auto_only = [b for b in tb if is_auto(b[0])]
+        if auto_only:
+            tb = auto_only
     k = k if k is not None else rng.choice([1, 2, 2, 3, 3, 4, 5, 6, 8])
     if noise is None:
         noise = rng.choice([0, 0, 8, 32, 100])       # in 1/1024 units
